@@ -174,7 +174,7 @@ class SrtContext:
       if paragraph.get_end() is None:
         # set default end time code
         LOGGER.warning("Set a default end value to paragraph (begin + 10s).")
-        paragraph.set_end(paragraph.get_begin().to_seconds() + 10)
+        paragraph.set_end(paragraph.get_begin().to_temporal_offset() + 10)
 
   def __str__(self) -> str:
     return "\n".join(p.to_string(id + 1) for id, p in enumerate(self._paragraphs))
